@@ -411,9 +411,17 @@ def build(recipe):
     return Builder(recipe).program()
 
 
-def compile_recipe(recipe, version, mode="app", scratch_slots=None, frame_pointers=None, assemble_constants=False, optimize_obj=None):
+def compile_recipe(recipe, version, mode="app", scratch_slots=None, frame_pointers=None, assemble_constants=False, optimize_obj=None, first_version=None):
     opts = optimize_obj
     if opts is None and (scratch_slots is not None or frame_pointers is not None):
         opts = pt.OptimizeOptions(scratch_slots=scratch_slots, frame_pointers=frame_pointers)
     m = pt.Mode.Application if mode == "app" else pt.Mode.Signature
-    return pt.compileTeal(build(recipe), m, version=version, optimize=opts, assembleConstants=assemble_constants)
+    prog = build(recipe)
+    if first_version is not None:
+        # the same expression object is compiled once before (possibly at another version, possibly failing): compiling must
+        # not consume or mutate the tree
+        try:
+            pt.compileTeal(prog, m, version=first_version, assembleConstants=assemble_constants and first_version >= 3)
+        except Exception:
+            pass
+    return pt.compileTeal(prog, m, version=version, optimize=opts, assembleConstants=assemble_constants)
